@@ -26,6 +26,9 @@ pub const FILE_NAMES: &[&str] = &[
     " lead and trail .sol",
     "tab\there.sol",
     "my_token.sol",
+    "R&D.sol",
+    "a&amp;b.sol",
+    "Vault<T>.sol",
     "a*b.sol",
     "p|q.sol",
     "`tick`.sol",
